@@ -277,6 +277,12 @@ func (session *ServerCommandSession) handleOptions(requestCtx nazahttp.HttpReqMs
 func (session *ServerCommandSession) handleAnnounce(requestCtx nazahttp.HttpReqMsgCtx) error {
 	Log.Infof("[%s] < R ANNOUNCE", session.uniqueKey)
 
+	// 一个连接只能成为一次pub或者sub。重复的ANNOUNCE（或者DESCRIBE之后又ANNOUNCE）如果继续处理，
+	// 会覆盖掉已经挂载到上层的session，导致该session在连接结束时不再被上报（notify没有stop，stat中一直存在，group无法回收）
+	if session.pubSession != nil || session.subSession != nil {
+		return nazaerrors.Wrap(base.ErrRtsp, "ANNOUNCE on a connection that already carries a session")
+	}
+
 	urlCtx, err := base.ParseRtspUrl(requestCtx.Uri)
 	if err != nil {
 		Log.Errorf("[%s] parse presentation failed. uri=%s", session.uniqueKey, requestCtx.Uri)
@@ -308,6 +314,11 @@ func (session *ServerCommandSession) handleAnnounce(requestCtx nazahttp.HttpReqM
 func (session *ServerCommandSession) handleDescribe(requestCtx nazahttp.HttpReqMsgCtx) error {
 	Log.Infof("[%s] < R DESCRIBE", session.uniqueKey)
 
+	// 同 handleAnnounce ，一个连接只能成为一次pub或者sub
+	if session.pubSession != nil {
+		return nazaerrors.Wrap(base.ErrRtsp, "DESCRIBE on a connection that already carries a pub session")
+	}
+
 	if session.authConf.AuthEnable {
 		// 鉴权处理
 		authresp, err := session.handleAuthorized(requestCtx)
@@ -332,6 +343,15 @@ func (session *ServerCommandSession) handleDescribe(requestCtx nazahttp.HttpReqM
 	}
 
 	session.describeSeq = requestCtx.Headers.Get(HeaderCSeq)
+
+	// 重复的DESCRIBE（rtsp允许）：该连接的SubSession已经存在并且已经上报给上层，不能再创建一个新的覆盖掉它
+	// （被覆盖的session在连接结束时不会被上报），这里直接再次回复它的sdp；如果sdp还没有准备好，回复时会使用最新的CSeq
+	if session.subSession != nil {
+		if rawSdp := session.subSession.baseOutSession.sdpCtx.RawSdp; rawSdp != nil {
+			return session.feedSdp(rawSdp)
+		}
+		return nil
+	}
 
 	session.subSession = NewSubSession(urlCtx, session)
 	Log.Infof("[%s] link new SubSession. [%s]", session.uniqueKey, session.subSession.UniqueKey())
